@@ -656,6 +656,19 @@ def h_types(ch):
     return model(g)
 
 
+@_h("h_zero_dim", {}, [dict(z=np.zeros((0, 3), np.float32), y=np.array([[1.0, -2.0, 3.0], [0.5, 0.0, -1.5]], np.float32)),
+                       dict(z=np.zeros((0, 3), np.float32), y=np.array([[-1.0, 2.0, -3.0]], np.float32)),
+                       dict(z=np.zeros((0, 3), np.float32), y=np.zeros((0, 3), np.float32))], tags=("types",))
+def h_zero_dim(ch):
+    """A declared dimension of size 0 (dim_value == 0 is a populated field, not an unknown dimension)."""
+    nodes = [oh.make_node("Neg", ["z"], ["nz"]), oh.make_node("Concat", ["z", "y"], ["zy"], axis=0),
+             oh.make_node("Shape", ["nz"], ["sh"])]
+    ins = [vi("z", TP.FLOAT, [0, 3]), vi("y", TP.FLOAT, ["N", 3])]
+    outs = [vi("nz", TP.FLOAT, [0, 3]), vi("zy", TP.FLOAT, ["N", 3]), vi("sh", TP.INT64, [2])]
+    g = oh.make_graph(nodes, "g_zero_dim", ins, outs)
+    return model(g)
+
+
 @_h("h_names", {}, [dict(x=v, y=w) for v, w in zip(_X2, reversed(_X2))], tags=("names",))
 def h_names(ch):
     """Values already carrying alphabet names, so that one renaming deviation produces a clean-up collision."""
